@@ -2,23 +2,93 @@ package main
 
 // Which functions under contract decide which property. The contracts themselves are in
 // /repo/internal/ergo/verif_contracts.go; DESIGN.md §8 explains each reduction.
+var replayFuncs = []string{"applyTombstone", "sortedKeys", "replayEvents", "loadGraph"}
+var readyFuncs = []string{"isEpicComplete", "areEpicDepsComplete", "isReady", "isBlocked", "listTasks$1", "listTasks", "filterTasksByKind", "readyTasks$1", "readyTasks"}
+
+func cat(lists ...[]string) []string {
+	var out []string
+	seen := map[string]bool{}
+	for _, l := range lists {
+		for _, x := range l {
+			if !seen[x] {
+				seen[x] = true
+				out = append(out, x)
+			}
+		}
+	}
+	return out
+}
+
+var lockAssume = []string{
+	"schedules are not enumerated: by the lock-invariant rule, if every critical section is sequentially correct and every access to the log happens in a section holding the exclusive lock in the epoch of its read (both proved here as obligations on the real code), every interleaving is equivalent to a serial order of sections; that the kernel grants LOCK_EX to at most one open file description at a time and that LOCK_NB fails fast are trusted (flock(2))",
+	"contracts of readEvents, appendEvents, getEventsPath, ergoDir, writeJSON are assumed (trusted) until the storage layer is under contract; I/O faults of append and of stdout are excluded",
+}
+
+var lockFuncs = []string{"ensureFileExists", "withLock"}
+var sectionFuncs = []string{"RunClaimOldestReady$1", "applySetUpdates$1", "writeLinkEvent$1", "createTaskWithDir$1", "writeResultEvent$1", "runPrune$1", "RunCompact$1"}
+var outerFuncs = []string{"writeLinkEvent", "createTaskWithDir", "createTask", "writeResultEvent", "applySetUpdates", "runPrune", "RunPrunePlan", "RunPruneApply", "appendEventsAtomically"}
+var commandFuncs = []string{"RunClaimOldestReady", "RunClaim", "RunSet", "RunNewTask", "RunNewEpic", "RunSequence", "RunPrune", "RunCompact", "RunShow", "RunInit"}
+var helperFuncs = []string{"newEvent", "newShortID", "buildSetEvents", "validateTransition", "validateClaimInvariant", "buildPruneItems", "buildTombstoneEvents", "buildPrunePlan", "selectPruneTargets",
+	"buildSequenceEdges", "isReachable", "hasCycle", "(*ValidationError).GoError", "(*TaskInput).validate", "(*TaskInput).ToKeyValueMap", "buildUpdatedFields", "claimedAtForTask"}
+
+// clause labels that belong to the transaction/atomicity properties (C02, C10) and to the output property (C16)
+var txLabels = []string{"[fail-unchanged]", "[one-commit]", "[committed]", "[version-tracks-commits]", "[dry-run-pure]", "[read-pure]"}
+var jsonLabels = []string{"[json-", "[quiet]", "[no-json]", "[reply"}
+
 var propSpecs = map[string]*PropSpec{
+	"C01": {
+		ID: "C01", Exclude: jsonLabels, Title: "A ready task is handed to at most one claimant",
+		Funcs:     cat(lockFuncs, []string{"RunClaimOldestReady$1", "RunClaimOldestReady", "newEvent"}, readyFuncs, replayFuncs),
+		Technique: "contract-based deductive verification: ghost lock state (withLock calls its callback at most once, only with the lock held, releases it, never blocks), functional contract of the claim section (oldest ready task, two events, effect doing+claimant, append under LOCK_EX in the epoch of the read)",
+		Assume:    lockAssume,
+	},
+	"C02": {
+		ID: "C02", Exclude: jsonLabels, Title: "Concurrent commands are serializable; acknowledged writes are never lost",
+		Funcs:     cat(lockFuncs, sectionFuncs, outerFuncs, commandFuncs, helperFuncs, readyFuncs, replayFuncs),
+		Technique: "contract-based deductive verification of the lock protocol as ghost state: every write primitive requires LOCK_EX held and the log read in the same lock epoch (obligations at every call site), withLock never blocks, every command is at most one commit (recorded findings where it is not)",
+		Assume:    append([]string{"RunPlan and its section are not yet under contract (plan is claimed by no property yet); init's file creation outside the lock is tracked by the ghost counter fsWrites only"}, lockAssume...),
+	},
 	"C06": {
-		ID: "C06", Title: "State machine and claim invariants hold on every path",
-		Funcs:     []string{"validateTransition", "validateClaimInvariant", "newEvent", "buildSetEvents", "applyTombstone", "sortedKeys", "replayEvents"},
-		Technique: "contract-based deductive verification: postconditions of the transition table, the claim rule and the set-event builder over the (state, claimant) projection of replay",
-		Assume:    []string{"the (state, claimant) effect of an event list is the fold of the replay step evState/evClaim; replayEvents/loop0/step[state-claim] proves, for every event type and every back edge of the real loop, that one iteration applies exactly this step to every live item (frame included)",
-			"induction over command sequences (every writer preserves the invariant, replay is a left fold) is the standard soundness argument of invariants; the writers other than the set path are not yet under contract"},
+		ID: "C06", Exclude: cat(txLabels, jsonLabels), Title: "State machine and claim invariants hold on every path",
+		Funcs:     cat([]string{"validateTransition", "validateClaimInvariant", "newEvent", "buildSetEvents", "applySetUpdates$1", "RunClaimOldestReady$1", "createTaskWithDir$1"}, readyFuncs, replayFuncs),
+		Technique: "contract-based deductive verification: postconditions of the transition table, the claim rule and the set-event builder over the (state, claimant) projection of replay; composed with the set section (the appended events are the built events for the live item) and the claim section",
+		Assume: []string{"the (state, claimant) effect of an event list is the fold of the replay step evState/evClaim; replayEvents/loop0/step[state-claim] proves, for every event type and every back edge of the real loop, that one iteration applies exactly this step to every live item (frame included)",
+			"induction over command sequences (every writer preserves the invariant, replay is a left fold) is the standard soundness argument of invariants; writers covered: set, claim <id> (= set), claim, create (state todo, unclaimed); plan is not yet under contract; link/result/tombstone events do not touch state or claimant by the step clause",
+			"contracts of readEvents/appendEvents are assumed (storage layer not yet under contract)"},
+	},
+	"C07": {
+		ID: "C07", Exclude: cat(txLabels, jsonLabels), Title: "The dependency graph stays acyclic, same-kind and between live items",
+		Funcs:     cat(lockFuncs, []string{"isReachable", "hasCycle", "writeLinkEvent$1", "writeLinkEvent", "buildSequenceEdges", "RunSequence", "newEvent"}, replayFuncs),
+		Technique: "contract-based deductive verification: completeness of the recursive DFS (a false answer leaves a dependency-closed visited set containing `to` and not `from`), guards of the link section, and an explicit re-ranking lemma showing that a ranking of the read graph extends to the graph plus the appended edge; tombstone edge removal and its frame",
+		Assume:    append([]string{"acyclicity is stated as existence of a strictly decreasing rank (uninterpreted rankOf: the statement holds for every ranking); concurrent inserts are serialised by the lock protocol (C02 obligations on the same section)", "the deps/rdeps mirror clause and plan's edges are not yet under contract"}, lockAssume...),
 	},
 	"C08": {
-		ID: "C08", Title: "ready/blocked mean what the manual says; claim takes the oldest ready task",
-		Funcs:     []string{"isEpicComplete", "areEpicDepsComplete", "isReady", "isBlocked", "listTasks$1", "listTasks", "filterTasksByKind", "readyTasks$1", "readyTasks"},
-		Technique: "contract-based deductive verification: pure functions proved equivalent to spec predicates transcribed from the property statement; loop invariants over map ranges; sort contracts",
+		ID: "C08", Exclude: cat(txLabels, jsonLabels), Title: "ready/blocked mean what the manual says; claim takes the oldest ready task",
+		Funcs:     cat(readyFuncs, []string{"RunClaimOldestReady$1", "newEvent"}, replayFuncs),
+		Technique: "contract-based deductive verification: pure functions proved equivalent to spec predicates transcribed from the property statement; loop invariants over map ranges; sort contracts; the claim section takes ready[0] of the proved ordering and reports no-ready exactly when the ready set is empty",
 	},
 	"C09": {
-		ID: "C09", Title: "prune removes exactly finished work; pruned ids are gone for good",
-		Funcs:     []string{"selectPruneTargets", "applyTombstone", "sortedKeys", "replayEvents"},
-		Technique: "contract-based deductive verification: exact prune policy as a postcondition with five loop invariants; tombstone exclusion as a loop invariant of the real replay loop for every event list",
-		Assume:    []string{"tombExcluded is proved preserved by every case of the replay loop for arbitrary (also hand-merged) event lists; command guards against pruned ids and id reuse are not yet under contract"},
+		ID: "C09", Exclude: jsonLabels, Title: "prune removes exactly finished work; pruned ids are gone for good",
+		Funcs:     cat([]string{"selectPruneTargets", "buildPrunePlan", "buildPruneItems", "buildTombstoneEvents", "runPrune$1", "runPrune", "RunPrunePlan", "RunPruneApply", "newShortID", "createTaskWithDir$1", "applySetUpdates$1", "writeLinkEvent$1", "writeResultEvent$1", "newEvent"}, lockFuncs, replayFuncs),
+		Technique: "contract-based deductive verification: exact prune policy as a postcondition with five loop invariants; dry run writes nothing; applied tombstones are exactly the planned ids; tombstone exclusion as a loop invariant of the real replay loop for every event list; command guards and id freshness as postconditions of the sections",
+		Assume:    []string{"tombExcluded is proved preserved by every case of the replay loop for arbitrary (also hand-merged) event lists", "show's guard is in RunShow (under contract for C12/C16); plan's id generation shares newShortID"},
+	},
+	"C10": {
+		ID: "C10", Exclude: jsonLabels, Title: "A command that fails changes nothing",
+		Funcs:     cat(lockFuncs, sectionFuncs, outerFuncs, commandFuncs, helperFuncs, readyFuncs, replayFuncs),
+		Technique: "contract-based deductive verification: ghost log version; every section and command has the postcondition `error ==> log version unchanged` (recorded findings where the real code commits before it validates)",
+		Assume:    append([]string{"I/O faults of the write primitives and of stdout are excluded (assumed contracts); plan is not yet under contract"}, lockAssume...),
+	},
+	"C14": {
+		ID: "C14", Exclude: cat(txLabels, jsonLabels), Title: "Every task's epic reference names a live epic",
+		Funcs:     cat([]string{"createTaskWithDir$1", "applySetUpdates$1", "buildSetEvents", "selectPruneTargets", "newEvent"}, replayFuncs),
+		Technique: "contract-based deductive verification: creation and epic reassignment require an existing, unpruned epic (postconditions of the two sections over the graph read under the lock); epics get no epic; prune policy removes an epic only together with all its (finished) children",
+		Assume:    []string{"plan (tasks inside the epic it creates) and the tree builder's placement are not yet under contract", "writer induction as in C06"},
+	},
+	"C16": {
+		ID: "C16", Exclude: txLabels, Title: "--json output is a single value and tells the truth",
+		Funcs:     cat(lockFuncs, sectionFuncs, outerFuncs, commandFuncs, helperFuncs, readyFuncs, replayFuncs),
+		Technique: "contract-based deductive verification: ghost output counters (stdoutJSON, stdoutText) bumped by the trusted contracts of writeJSON and fmt.Print*; per command: success with --json writes exactly one JSON value and no text, failure at most one; create's reply equals the appended event",
+		Assume:    append([]string{"cmd/ergo wiring (cobra, exitErr, quickstart/version) is outside the package under contract", "list and plan are not yet under contract"}, lockAssume...),
 	},
 }
